@@ -862,6 +862,122 @@ fn run_tp(base: Instant, c: &TpCase) -> Result<TpOut, String> {
     })
 }
 
+/// Datagrams with syntactically valid headers but every short / inconsistent body length, delivered
+/// to live connections (client and server) and to the server endpoint as first packets. Nothing may
+/// panic and the honest transfer must still complete afterwards.
+fn header_sweep(base: Instant, thorough: bool) -> (u64, Vec<(String, String)>) {
+    let mut viol = vec![];
+    let mut n = 0u64;
+    for cid_len in [8usize, 0, 20] {
+        let mut cfg = cfg_by_name("default");
+        cfg.cid_len = cid_len;
+        let mut p = crate::scen::std_pair_pre(base, &cfg, Wl::W1, ReadMode::default(), |w| w.keep_data = true);
+        // reach the established state with some 1-RTT traffic on the wire
+        for _ in 0..400 {
+            if p.client().app.obs.handshake_confirmed || !p.w.step() {
+                break;
+            }
+        }
+        // header templates from genuine traffic: (sender node, first bytes up to and excluding the packet number)
+        let mut shorts: Vec<(usize, Vec<u8>)> = vec![];
+        let mut longs: Vec<(usize, Vec<u8>)> = vec![];
+        for r in &p.w.recs {
+            if let Rec::Emit { node, data, dst, .. } = r {
+                let peer_cid_len = crate::ledger::cid_len_of(&p.w, *dst);
+                if data.is_empty() {
+                    continue;
+                }
+                if data[0] & 0x80 == 0 {
+                    if !shorts.iter().any(|(nd, _)| nd == node) {
+                        shorts.push((*node, data[..1 + peer_cid_len].to_vec()));
+                    }
+                } else if data.len() > 7 && longs.iter().filter(|(nd, _)| nd == node).count() < 3 {
+                    let dl = data[5] as usize;
+                    if data.len() > 6 + dl {
+                        let sl = data[6 + dl] as usize;
+                        let mut h = data[..(7 + dl + sl).min(data.len())].to_vec();
+                        if (data[0] & 0x30) == 0 {
+                            h.push(0); // Initial: empty token
+                        }
+                        if !longs.iter().any(|(nd, x)| nd == node && x[0] & 0x30 == h[0] & 0x30) {
+                            longs.push((*node, h));
+                        }
+                    }
+                }
+            }
+        }
+        let addr_of = |p: &StdPair, node: usize| p.w.nodes[node].addr;
+        let max_body = if thorough { 80 } else { 44 };
+        let mut inject = |p: &mut StdPair, from: usize, d: Vec<u8>| {
+            let (src, dst) = (addr_of(p, from), addr_of(p, 1 - from));
+            p.w.inject(src, dst, d, Duration::from_micros(1));
+            n += 1;
+        };
+        for (from, h) in shorts.clone() {
+            // short header + body of every length (the packet number, payload and tag are whatever)
+            for body in 0..=max_body {
+                for fill in [0u8, 0xff] {
+                    for first_bits in [0x00u8, 0x03, 0x04, 0x20] {
+                        let mut d = h.clone();
+                        d[0] = (d[0] & 0xc0) | first_bits | 0x40;
+                        d.extend(std::iter::repeat(fill).take(body));
+                        inject(&mut p, from, d);
+                    }
+                }
+            }
+        }
+        for (from, h) in longs.clone() {
+            // long header + Length field L, followed by exactly L bytes, fewer, or more (coalesced garbage up to 1200)
+            for l in 0..=max_body as u64 {
+                for shape in 0..4 {
+                    let mut d = h.clone();
+                    crate::wire::put_var(&mut d, l);
+                    let have = match shape { 0 => l as usize, 1 => (l as usize).saturating_sub(1), 2 => l as usize + 7, _ => 0 };
+                    d.extend(std::iter::repeat(0xa5u8).take(have));
+                    if shape == 3 {
+                        d.extend(std::iter::repeat(0x5au8).take(l as usize));
+                        d.resize(1200.max(d.len()), 0);
+                    }
+                    inject(&mut p, from, d);
+                }
+            }
+        }
+        // first packets for the server endpoint: fresh DCID, every small Length, padded to 1200
+        for l in 0..=max_body as u64 {
+            for ty in [0x00u8, 0x10, 0x20, 0x30] {
+                let mut d = vec![0xc0 | ty | 0x03];
+                d.extend_from_slice(&1u32.to_be_bytes());
+                d.push(8);
+                d.extend_from_slice(&[0x77, l as u8, ty, 1, 2, 3, 4, 5]);
+                d.push(8);
+                d.extend_from_slice(&[9; 8]);
+                if ty == 0 {
+                    d.push(0);
+                }
+                crate::wire::put_var(&mut d, l);
+                d.extend(std::iter::repeat(0x11u8).take(l as usize));
+                d.resize(1200, 0);
+                let dst = addr_of(&p, SERVER);
+                p.w.inject(addr(15), dst, d, Duration::from_micros(1));
+                n += 1;
+            }
+        }
+        // let everything be processed, then the honest transfer must still complete
+        let done = crate::scen::drive(&mut p, &[], 200_000, Duration::from_secs(120));
+        if !done {
+            viol.push(("header-sweep-victim-stuck".into(), format!("cid_len {cid_len}: after well-formed-header datagrams with short bodies the honest transfer did not complete: {:?}; {}", crate::scen::completion(&p).into_iter().take(2).collect::<Vec<_>>(), crate::scen::diagnose(&p))));
+        }
+        for (who, s) in [("client", Some(p.client())), ("server", p.server())] {
+            if let Some(s) = s {
+                if !s.app.obs.lost.is_empty() {
+                    viol.push(("header-sweep-victim-lost".into(), format!("cid_len {cid_len}: {who} lost the connection after unauthenticated datagrams: {:?}", s.app.obs.lost)));
+                }
+            }
+        }
+    }
+    (n, viol)
+}
+
 pub fn main(args: &Args) -> ! {
     if args.replay.is_some() {
         replay(args);
@@ -918,6 +1034,21 @@ pub fn main(args: &Args) -> ! {
             rep.violation(Violation { signature: "panic:endpoint-handle-arbitrary-bytes".into(), what: format!("Endpoint::handle panicked on a short arbitrary datagram: {e}"), replay: json!({"check":"c03","kind":"bytes"}) });
         }
         rep.part("arbitrary_bytes", json!({"datagrams": n}));
+    }
+
+    // (a2) well-formed headers around every length boundary, into live connections of both roles
+    {
+        let r = guarded(|| header_sweep(base, thorough));
+        match r {
+            Err(e) => rep.violation(Violation { signature: "panic:header-length-sweep".into(), what: format!("panic while a live endpoint processed a datagram with a well-formed header and a short or inconsistent body: {e}"), replay: json!({"check":"c03","kind":"headers"}) }),
+            Ok((n, viol)) => {
+                rep.evaluations += n;
+                rep.part("header_length_sweep", json!({"datagrams": n}));
+                for (sig, what) in viol {
+                    rep.violation(Violation { signature: sig, what, replay: json!({"check":"c03","kind":"headers"}) });
+                }
+            }
+        }
     }
 
     // (b) frames
